@@ -61,6 +61,12 @@ def run(ctx):
                 runs.append(Run("y%d_%d_%d" % (si, yi, variant), {"in/s.%s" % ext: text},
                                 base_argv + ["--schema-root-type", "%s=SJson" % idv, "--schema-output", "%s=-" % idv, "in/s.%s" % ext]))
                 meta.append((si, "yaml-%s-%s-%d" % (style, ext, variant)))
+        # the same JSON value in other layouts of white space (pretty-printed, blanks before colons and commas, tabs, CRLF line ends)
+        for fi, text in enumerate((json.dumps(respell(sc, legacy_id=True, legacy_defs=True), indent=2, separators=(" ,", " : ")),
+                                   json.dumps(respell(sc, legacy_id=True, legacy_defs=True), indent="\t").replace("\n", "\r\n"),
+                                   json.dumps(sc, indent=1, separators=(" , ", " :  ")), "\n\n  " + json.dumps(sc, separators=(",", ":")) + "  \n")):
+            runs.append(Run("w%d_%d" % (si, fi), {"in/s.json": text}, base_argv + ["in/s.json"]))
+            meta.append((si, "json-layout-%d" % fi))
         # the JSON twin of the YAML runs (same root-type mapping)
         runs.append(Run("j%d" % si, {"in/s.json": json.dumps(sc)}, base_argv + ["--schema-root-type", "%s=SJson" % idv, "--schema-output", "%s=-" % idv, "in/s.json"]))
         meta.append((si, "json-mapped"))
